@@ -73,6 +73,16 @@ func InitGenesis(ctx sdk.Context, k keeper.Keeper, state *types.GenesisState) {
 	k.SetPoolID(ctx, poolID)
 	k.SetLendPairID(ctx, extendedPairID)
 	k.SetFundModBal(ctx, state.ModBal)
+	for _, item := range state.ModBal.FundModuleBalance {
+		// the per asset and pool total is kept next to the list of fundings (see FundModAcc)
+		amt, found := k.GetFundModBalByAssetPool(ctx, item.AssetID, item.PoolID)
+		if found {
+			amt = amt.Add(item.AmountIn)
+		} else {
+			amt = item.AmountIn
+		}
+		k.SetFundModBalByAssetPool(ctx, item.AssetID, item.PoolID, amt)
+	}
 	k.SetFundReserveBal(ctx, state.ReserveBal)
 	for _, item := range state.AllReserveStats {
 		k.SetAllReserveStatsByAssetID(ctx, item)
